@@ -1191,3 +1191,293 @@ Proof.
         intro Heq; subst r; unfold t, t2, pos_reg in *; cbn [tnum_n] in *;
         change RESERVED with 4%N in *; change TEMP with 1%N in *; change HEAP with 2%N in *; change FREE with 3%N in *; lia.
 Qed.
+
+(* ---------- load_values, release mode: straight-line loads from the block ---------- *)
+Fixpoint lv_spec (w : Z -> Z) (to_load_rev : list binding) (E : nat) (b : Z) (ff : N) (rg : N -> option Z) : N -> option Z :=
+  match to_load_rev with
+  | [] => rg
+  | x :: rest_rev =>
+      let L := (E + List.length rest_rev)%nat in
+      let rg1 := fun r => if N.eqb r (pos_reg Snd L) then Some (w (b + field_offset Snd (ff - 1))) else rg r in
+      let rg2 := match bchi x with
+                 | Ext => rg1
+                 | _ => fun r => if N.eqb r (pos_reg Fst L) then Some (w (b + field_offset Fst (ff - 1))) else rg1 r
+                 end in
+      lv_spec w rest_rev E b (ff - 1) rg2
+  end.
+
+Lemma lv_spec_cons : forall w x rest_rev E b ff rg,
+  lv_spec w (x :: rest_rev) E b ff rg =
+  lv_spec w rest_rev E b (ff - 1)
+    (match bchi x with
+     | Ext => fun r => if N.eqb r (pos_reg Snd (E + List.length rest_rev)) then Some (w (b + field_offset Snd (ff - 1))) else rg r
+     | _ => fun r => if N.eqb r (pos_reg Fst (E + List.length rest_rev)) then Some (w (b + field_offset Fst (ff - 1)))
+                     else if N.eqb r (pos_reg Snd (E + List.length rest_rev)) then Some (w (b + field_offset Snd (ff - 1))) else rg r
+     end).
+Proof. intros. cbn [lv_spec]. destruct (bchi x); reflexivity. Qed.
+
+Lemma lv_spec_ext : forall l w w' E b ff rg rg',
+  (forall a, w a = w' a) -> (forall r, rg r = rg' r) -> forall r, lv_spec w l E b ff rg r = lv_spec w' l E b ff rg' r.
+Proof.
+  induction l as [|x l IH]; intros w w' E b ff rg rg' Hw Hr r; cbn [lv_spec]; [apply Hr|].
+  apply IH; [assumption|]. intros r'. destruct (bchi x); repeat destruct (N.eqb r' _); try rewrite Hw; try reflexivity; apply Hr.
+Qed.
+
+Lemma rget_rset_eqb : forall s t v r, (4 <= t)%N -> rget (rset s t v) r = if N.eqb r t then v else rget s r.
+Proof.
+  intros s t v r Ht. destruct (N.eqb_spec r t) as [->|Hne].
+  - apply rget_rset_same. lia.
+  - apply rget_rset_other. congruence.
+Qed.
+
+Theorem rv_load_values_release : forall im to_load_rev existing ff cs lc lc' i s b,
+  load_values to_load_rev existing (pos_reg Fst (List.length existing)) ff Release lc = Ok (cs, lc') ->
+  (N.of_nat (List.length to_load_rev) <= ff)%N -> (ff <= 3)%N ->
+  at_code im i cs ->
+  rget s (pos_reg Fst (List.length existing)) = Some b -> valid_block b ->
+  exists s',
+    star im i s (padd i (List.length cs)) s' /\
+    (forall r, rget s' r = lv_spec (hword s) to_load_rev (List.length existing) b ff (rget s) r) /\
+    (forall a, hword s' a = hword s a) /\ lc' = lc.
+Proof.
+  intros im to_load_rev. induction to_load_rev as [|x rest_rev IH]; intros existing ff cs lc lc' i s b Hlv Hlen Hff Hcode Hblk Hvb.
+  - cbn [load_values] in Hlv. injection Hlv as <- <-. exists s. cbn. repeat split; auto. apply star_refl.
+  - cbn [load_values] in Hlv. cbn [List.length] in Hlen.
+    destruct (load_value x (existing ++ rev rest_rev) (pos_reg Fst (List.length existing)) (ff - 1) Release lc) as [[c1 lc1]|] eqn:E1; [|discriminate].
+    cbn [rbind] in Hlv.
+    destruct (load_values rest_rev existing (pos_reg Fst (List.length existing)) (ff - 1) Release lc1) as [[c2 lc2]|] eqn:E2; [|discriminate].
+    cbn [rbind] in Hlv. injection Hlv as <- <-.
+    assert (HL : List.length (existing ++ rev rest_rev) = (List.length existing + List.length rest_rev)%nat)
+      by (rewrite app_length, rev_length; reflexivity).
+    apply at_code_app in Hcode as [Hc1 Hc2].
+    assert (Hk : (ff - 1 < 3)%N) by lia.
+    set (E := List.length existing) in *. set (L := (E + List.length rest_rev)%nat) in *.
+    (* the loads of this value *)
+    assert (H1 : exists s1, star im i s (padd i (List.length c1)) s1 /\ lc1 = lc /\
+                 (forall a, hword s1 a = hword s a) /\
+                 (forall r, rget s1 r =
+                    match bchi x with
+                    | Ext => if N.eqb r (pos_reg Snd L) then Some (hword s (b + field_offset Snd (ff - 1))) else rget s r
+                    | _ => if N.eqb r (pos_reg Fst L) then Some (hword s (b + field_offset Fst (ff - 1)))
+                           else if N.eqb r (pos_reg Snd L) then Some (hword s (b + field_offset Snd (ff - 1))) else rget s r
+                    end)).
+    { unfold load_value, load_field in E1.
+      destruct (r_fresh Snd (existing ++ rev rest_rev)) as [tS|] eqn:ES; [|discriminate]. cbn [rbind] in E1.
+      apply r_fresh_ok in ES. rewrite HL in ES. subst tS. fold L in E1.
+      pose proof (pos_reg_reserved Snd L) as HS4. pose proof (pos_reg_reserved Fst L) as HF4.
+      assert (Hne : pos_reg Snd L <> pos_reg Fst E) by (intro Heq; apply pos_reg_inj in Heq as [Heq _]; discriminate).
+      destruct (bchi x) eqn:Echi.
+      3:{ injection E1 as <- <-. eexists. split; [|split; [|split]].
+          - exec_next Hc1 0%nat step_LW; [exact Hblk | now apply field_fits12 | now apply field_valid |]. apply star_refl.
+          - reflexivity.
+          - intros a. apply hword_rset.
+          - intros r. now rewrite rget_rset_eqb. }
+      all: destruct (r_fresh Fst (existing ++ rev rest_rev)) as [tF|] eqn:EF; [|discriminate]; cbn [rbind] in E1;
+           apply r_fresh_ok in EF; rewrite HL in EF; subst tF; fold L in E1; injection E1 as <- <-;
+           (eexists; split; [|split; [|split]];
+            [ exec_next Hc1 0%nat step_LW; [exact Hblk | now apply field_fits12 | now apply field_valid |];
+              exec_next Hc1 1%nat step_LW; [rewrite rget_rset_other by exact Hne; exact Hblk | now apply field_fits12 | now apply field_valid |];
+              apply star_refl
+            | reflexivity
+            | intros a; now rewrite !hword_rset
+            | intros r; rewrite !rget_rset_eqb by assumption; now rewrite hword_rset ]). }
+    destruct H1 as (s1 & Hs1 & -> & Hw1 & Hr1).
+    destruct rest_rev as [|y rest'].
+    + (* this was the first variable: nothing follows (its first register may be the block register) *)
+      cbn [load_values] in E2. injection E2 as <- <-.
+      exists s1. split; [|split; [|split]].
+      * rewrite app_nil_r. exact Hs1.
+      * intros r. rewrite Hr1. cbn [lv_spec]. fold E. fold L.
+        destruct (bchi x); repeat destruct (N.eqb r _); reflexivity.
+      * exact Hw1.
+      * reflexivity.
+    + assert (Hblk1 : rget s1 (pos_reg Fst E) = Some b).
+      { rewrite Hr1. assert (HLE : L <> E) by (unfold L; cbn [List.length]; lia).
+        assert (N.eqb (pos_reg Fst E) (pos_reg Snd L) = false) as -> by (apply N.eqb_neq; intro Heq; apply pos_reg_inj in Heq as [Heq _]; discriminate).
+        assert (N.eqb (pos_reg Fst E) (pos_reg Fst L) = false) as -> by (apply N.eqb_neq; intro Heq; apply pos_reg_inj in Heq as [_ Heq]; congruence).
+        destruct (bchi x); exact Hblk. }
+      destruct (IH existing (ff - 1)%N c2 lc lc2 (padd i (List.length c1)) s1 b E2 ltac:(cbn [List.length] in *; lia) ltac:(lia) Hc2 Hblk1 Hvb)
+        as (s2 & Hs2 & Hr2 & Hw2 & ->).
+      exists s2. split; [|split; [|split]].
+      * rewrite app_length, padd_add. eapply star_trans; eassumption.
+      * intros r. rewrite Hr2. rewrite (lv_spec_cons (hword s) x). fold L.
+        apply lv_spec_ext; [exact Hw1|]. intros r'. rewrite Hr1.
+        destruct (bchi x); reflexivity.
+      * intros a. now rewrite Hw2.
+      * reflexivity.
+Qed.
+
+Lemma padd_S : forall n i, padd i (S n) = Pos.succ (padd i n).
+Proof. intros. cbn [padd]. apply padd_succ. Qed.
+Lemma one_at_next : forall im j cs n c s s',
+  at_code im j cs -> nth_error cs n = Some c -> (forall a, step im a c s = Next s') ->
+  one im (padd j n) s (padd j (S n)) s'.
+Proof.
+  intros im j cs n c s s' H Hn Hs. destruct (H n c Hn) as [Hc [a Ha]]. rewrite padd_S.
+  eapply one_next; eauto.
+Qed.
+Lemma one_at_jump : forall im j cs n c s s' t,
+  at_code im j cs -> nth_error cs n = Some c -> (forall a, step im a c s = Jump s' t) ->
+  one im (padd j n) s t s'.
+Proof.
+  intros im j cs n c s s' t H Hn Hs. destruct (H n c Hn) as [Hc [a Ha]]. eapply one_jump; eauto.
+Qed.
+
+(* ---------- load (of at most FIELDS_PER_BLOCK values), the release path ---------- *)
+Lemma load_fields_one_block : forall to_load existing m lc cs lc',
+  to_load <> [] -> (List.length to_load <= 3)%nat ->
+  load_fields (S (List.length to_load)) to_load existing Last m lc = Ok (cs, lc') ->
+  exists lv,
+    load_values (rev to_load) existing (pos_reg Fst (List.length existing)) 3 m lc = Ok (lv, lc') /\
+    cs = (match m with Release => release_block (pos_reg Fst (List.length existing)) | Share => [] end) ++ lv.
+Proof.
+  intros to_load existing m lc cs lc' Hne Hlen H.
+  cbn [load_fields] in H. destruct to_load as [|x r]; [contradiction|].
+  change (FIELDS_PER_BLOCK - bp_n Last)%N with 3%N in H.
+  assert (Hle : N.leb (N.of_nat (List.length (x :: r))) 3 = true) by (apply N.leb_le; lia).
+  rewrite Hle in H. change (N.to_nat 0) with 0%nat in H. cbn [firstn skipn] in H.
+  rewrite app_nil_r in H. cbn [List.length load_fields rbind] in H.
+  destruct (r_fresh Fst existing) as [mb|] eqn:Emb; [|discriminate]. cbn [rbind] in H.
+  apply r_fresh_ok in Emb. subst mb.
+  destruct (load_values (rev (x :: r)) existing (pos_reg Fst (List.length existing)) 3 m lc) as [[lv lc3]|] eqn:Elv; [|discriminate].
+  cbn [rbind] in H. injection H as <- <-. exists lv. split; [reflexivity|]. cbn [app]. reflexivity.
+Qed.
+
+Lemma r_load_one_block : forall to_load existing lc cs lc',
+  to_load <> [] -> (List.length to_load <= 3)%nat ->
+  r_load to_load existing lc = Ok (cs, lc') ->
+  exists thenv elsev lc2,
+    let mb := pos_reg Fst (List.length existing) in
+    load_values (rev to_load) existing mb 3 Release lc = Ok (thenv, lc) /\
+    load_values (rev to_load) existing mb 3 Share lc = Ok (elsev, lc2) /\
+    cs = [LW TEMP mb 0; BEQ TEMP ZERO (lab (lc2 + 1))]
+         ++ ([ADDI TEMP TEMP (-1); SW TEMP mb 0] ++ elsev)
+         ++ [JAL ZERO (lab (lc2 + 2)); LAB (lab (lc2 + 1))]
+         ++ (release_block mb ++ thenv)
+         ++ [LAB (lab (lc2 + 2))].
+Proof.
+  intros to_load existing lc cs lc' Hne Hlen H. unfold r_load in H.
+  destruct to_load as [|x r] eqn:Etl; [contradiction|]. rewrite <- Etl in *.
+  destruct (r_fresh Fst existing) as [mb|] eqn:Emb; [|discriminate]. cbn [rbind] in H.
+  apply r_fresh_ok in Emb. subst mb.
+  destruct (load_fields (S (List.length to_load)) to_load existing Last Release lc) as [[thenb lc1]|] eqn:E1; [|discriminate].
+  cbn [rbind] in H.
+  destruct (load_fields (S (List.length to_load)) to_load existing Last Share lc1) as [[elseb lc2]|] eqn:E2; [|discriminate].
+  cbn [rbind] in H.
+  assert (Hne' : to_load <> []) by (rewrite Etl; discriminate).
+  destruct (load_fields_one_block _ _ _ _ _ _ Hne' Hlen E1) as (thenv & Hthen & ->).
+  destruct (load_fields_one_block _ _ _ _ _ _ Hne' Hlen E2) as (elsev & Helse & ->).
+  (* release-mode load_values draws no labels *)
+  assert (Hlc1 : lc1 = lc).
+  { clear -Hthen. revert Hthen. generalize (rev to_load) 3%N thenv lc lc1.
+    induction l as [|y l IH]; intros ff cs0 lcA lcB Hl; cbn [load_values] in Hl; [now injection Hl|].
+    destruct (load_value y _ _ _ Release lcA) as [[ca lca]|] eqn:Ea; [|discriminate]. cbn [rbind] in Hl.
+    destruct (load_values l _ _ _ Release lca) as [[cb lcb]|] eqn:Eb; [|discriminate]. cbn [rbind] in Hl.
+    injection Hl as _ <-. apply IH in Eb. subst lcb.
+    unfold load_value in Ea. destruct (load_field Snd _ _ _); [|discriminate]. cbn [rbind] in Ea.
+    destruct (bchi y); try (injection Ea as _ <-; reflexivity);
+      destruct (load_field Fst _ _ _); try discriminate; cbn [rbind] in Ea; injection Ea as _ <-; reflexivity. }
+  subst lc1. cbn [if_zero_then_else] in H. injection H as <- _.
+  exists thenv, elsev, lc2. cbn zeta. split; [assumption|split; [assumption|]].
+  change REFERENCE_COUNT_OFFSET with 0. cbn [app]. reflexivity.
+Qed.
+
+Lemma lv_spec_pointwise : forall l w E b ff rg rg' r,
+  rg r = rg' r -> lv_spec w l E b ff rg r = lv_spec w l E b ff rg' r.
+Proof.
+  induction l as [|x l IH]; intros w E b ff rg rg' r H; cbn [lv_spec]; [exact H|].
+  apply IH. destruct (bchi x); repeat destruct (N.eqb r _); try reflexivity; exact H.
+Qed.
+
+(* `switch`/`invoke` loading 1..3 values from a block nobody else refers to (header 0): the block
+   goes onto the linear free list and the fields are loaded into the registers of the positions
+   after the existing context; TEMP and HEAP are the only other registers written *)
+Theorem rv_load_one_block_release_refines : forall im i to_load existing lc cs lc' s h b,
+  to_load <> [] -> (List.length to_load <= 3)%nat ->
+  r_load to_load existing lc = Ok (cs, lc') ->
+  placed im i cs ->
+  represents s h ->
+  rget s (pos_reg Fst (List.length existing)) = Some b -> valid_block b ->
+  words h b = 0 ->
+  exists s',
+    star im i s (padd i (List.length cs)) s' /\
+    represents s' (a_release b h) /\
+    (forall r, r <> TEMP -> r <> HEAP ->
+       rget s' r = lv_spec (words (a_release b h)) (rev to_load) (List.length existing) b 3 (rget s) r).
+Proof.
+  intros im i to_load existing lc cs lc' s h b Hne Hlen Hld Hpl (Hw & Hhp & Hfp) Hmb Hvb Hrc.
+  destruct (r_load_one_block _ _ _ _ _ Hne Hlen Hld) as (thenv & elsev & lc2 & Hthen & Helse & ->).
+  set (mb := pos_reg Fst (List.length existing)) in *.
+  pose proof (pos_reg_reserved Fst (List.length existing)) as Hmb4. fold mb in Hmb4.
+  assert (Hb0 : valid_addr (b + 0)) by (replace (b + 0) with (b + 8 * 0) by lia; apply Hvb; lia).
+  assert (Hbpos : 0 < b) by (apply valid_pos; now rewrite Z.add_0_r in Hb0).
+  (* decompose the placement *)
+  set (A := [LW TEMP mb 0; BEQ TEMP ZERO (lab (lc2 + 1))] ++ ([ADDI TEMP TEMP (-1); SW TEMP mb 0] ++ elsev) ++ [JAL ZERO (lab (lc2 + 2))]).
+  assert (Ecs : [LW TEMP mb 0; BEQ TEMP ZERO (lab (lc2 + 1))] ++ ([ADDI TEMP TEMP (-1); SW TEMP mb 0] ++ elsev)
+                ++ [JAL ZERO (lab (lc2 + 2)); LAB (lab (lc2 + 1))] ++ (release_block mb ++ thenv) ++ [LAB (lab (lc2 + 2))]
+                = A ++ LAB (lab (lc2 + 1)) :: (release_block mb ++ thenv) ++ [LAB (lab (lc2 + 2))]).
+  { unfold A. rewrite <- !app_assoc. reflexivity. }
+  rewrite Ecs in *. clear Ecs.
+  destruct Hpl as [Hcode HL].
+  assert (Hlthen : find_label (labels im) (lab (lc2 + 1)) = Some (padd i (List.length A))).
+  { apply HL. apply nth_error_app_at. }
+  pose proof Hcode as Hcode0.
+  apply at_code_app in Hcode as [HcA Hc1]. 
+  change (LAB (lab (lc2 + 1)) :: (release_block mb ++ thenv) ++ [LAB (lab (lc2 + 2))])
+    with ([LAB (lab (lc2 + 1))] ++ (release_block mb ++ thenv) ++ [LAB (lab (lc2 + 2))]) in Hc1.
+  apply at_code_app in Hc1 as [HcL Hc2]. rewrite <- padd_add in Hc2. cbn [List.length] in Hc2.
+  apply at_code_app in Hc2 as [Hc3 HcE]. rewrite <- padd_add in HcE.
+  apply at_code_app in Hc3 as [HcR HcV]. rewrite <- padd_add in HcV.
+  assert (HmT : TEMP <> mb) by (intro Heq; rewrite <- Heq in Hmb4; vm_compute in Hmb4; congruence).
+  assert (HmH : HEAP <> mb) by (intro Heq; rewrite <- Heq in Hmb4; vm_compute in Hmb4; congruence).
+  (* up to the loads *)
+  assert (H5 : exists s5, star im i s (padd i (List.length A + 1 + 2)) s5 /\ represents s5 (a_release b h) /\
+                          (forall r, r <> TEMP -> r <> HEAP -> rget s5 r = rget s r)).
+  { eexists. split; [|split].
+    - eapply star_step; [apply (one_at_next im i A 0 _ s _ HcA eq_refl); intros a0; eapply step_LW; [exact Hmb | reflexivity | exact Hb0] |].
+      eapply star_step; [apply (one_at_jump im i A 1 _ _ _ _ HcA eq_refl); intros a0; eapply step_BEQ0_taken; [regs; now rewrite Z.add_0_r, Hw, Hrc | exact Hlthen] |].
+      eapply star_step; [apply (one_at_next im _ _ 0 _ _ _ HcL eq_refl); intros a0; apply step_LAB |].
+      replace (padd (padd i (List.length A)) 1) with (padd (padd i (List.length A + 1)) 0) by (rewrite <- !padd_add; f_equal; lia).
+      eapply star_step; [apply (one_at_next im _ _ 0 _ _ _ HcR eq_refl); intros a0; eapply step_SW; [regs; exact Hmb | regs; exact Hhp | reflexivity | exact Hb0] |].
+      eapply star_step; [apply (one_at_next im _ _ 1 _ _ _ HcR eq_refl); intros a0; apply step_MV |].
+      replace (padd (padd i (List.length A + 1)) 2) with (padd i (List.length A + 1 + 2)) by (rewrite <- !padd_add; f_equal).
+      apply star_refl.
+    - change NEXT_ELEMENT_OFFSET with 0. rewrite !Z.add_0_r. split; [|split]; cbn [words hp fp a_release].
+      + intros a. rewrite hword_rset, hword_sstore by assumption. rewrite hword_rset.
+        unfold upd. destruct (a =? b); [reflexivity|apply Hw].
+      + regs. exact Hmb.
+      + regs. exact Hfp.
+    - intros r H1 H2. regs. reflexivity. }
+  destruct H5 as (s5 & Hs5 & Hrep5 & Hfr5).
+  assert (Hmb5 : rget s5 mb = Some b).
+  { rewrite Hfr5; [exact Hmb| |]; intro Heq; rewrite Heq in Hmb4; vm_compute in Hmb4; congruence. }
+  cbn [List.length release_block] in HcV.
+  destruct (rv_load_values_release im (rev to_load) existing 3 thenv lc lc (padd i (List.length A + 1 + 2)) s5 b Hthen
+              ltac:(rewrite rev_length; lia) ltac:(lia) HcV Hmb5 Hvb) as (s6 & Hs6 & Hr6 & Hw6 & _).
+  exists s6. split; [|split].
+  - eapply star_trans; [exact Hs5|]. eapply star_trans; [exact Hs6|].
+    rewrite app_length in HcE. cbn [List.length release_block] in HcE.
+    replace (padd (padd i (List.length A + 1 + 2)) (List.length thenv))
+      with (padd (padd i (List.length A + 1 + (2 + List.length thenv))) 0) by (rewrite <- !padd_add; f_equal; lia).
+    eapply star_step; [apply (one_at_next im _ _ 0 _ _ _ HcE eq_refl); intros a0; apply step_LAB |].
+    replace (padd (padd i (List.length A + 1 + (2 + List.length thenv))) 1)
+      with (padd i (List.length (A ++ LAB (lab (lc2 + 1)) :: (release_block mb ++ thenv) ++ [LAB (lab (lc2 + 2))]))).
+    2:{ rewrite <- !padd_add. f_equal. rewrite !app_length. cbn [List.length]. rewrite !app_length. cbn [List.length release_block]. lia. }
+    apply star_refl.
+  - destruct Hrep5 as (Hw5 & Hhp5 & Hfp5). split; [|split].
+    + intros a. rewrite Hw6. apply Hw5.
+    + rewrite Hr6. erewrite lv_spec_pointwise with (rg' := fun _ => Some (hp (a_release b h))); [|exact Hhp5].
+      clear. generalize (rev to_load) 3%N. induction l as [|x l IH]; intros ff; [reflexivity|].
+      rewrite lv_spec_cons. erewrite lv_spec_pointwise; [apply (IH (ff - 1)%N)|].
+      assert (forall n p, N.eqb HEAP (pos_reg n p) = false) as Hn
+        by (intros n p; apply N.eqb_neq; intro Heq; pose proof (pos_reg_reserved n p) as H4; rewrite <- Heq in H4; vm_compute in H4; congruence).
+      destruct (bchi x); now rewrite ?Hn.
+    + rewrite Hr6. erewrite lv_spec_pointwise with (rg' := fun _ => Some (fp (a_release b h))); [|exact Hfp5].
+      clear. generalize (rev to_load) 3%N. induction l as [|x l IH]; intros ff; [reflexivity|].
+      rewrite lv_spec_cons. erewrite lv_spec_pointwise; [apply (IH (ff - 1)%N)|].
+      assert (forall n p, N.eqb FREE (pos_reg n p) = false) as Hn
+        by (intros n p; apply N.eqb_neq; intro Heq; pose proof (pos_reg_reserved n p) as H4; rewrite <- Heq in H4; vm_compute in H4; congruence).
+      destruct (bchi x); now rewrite ?Hn.
+  - intros r H1 H2. rewrite Hr6. destruct Hrep5 as (Hw5 & _).
+    erewrite lv_spec_ext; [|exact Hw5|reflexivity]. apply lv_spec_pointwise. now apply Hfr5.
+Qed.
